@@ -2,6 +2,8 @@
 and the operation-dependent sites of the sweep)."""
 from rules import booltables as bt, oracle, sweeprules, fillrules
 
+from rules import looprules
+
 LEVEL = 'other'
 EXPLANATION = __doc__
 
@@ -84,3 +86,4 @@ def run(ctx, rep):
         rep.rows_compared += n
     fillrules.check_fill_queue(ctx, rep, rules=('B-acc', 'X-opsites', 'W-iter'))
     sweeprules.check_break(ctx, rep)
+    looprules.check_loops(ctx, rep)
